@@ -273,7 +273,7 @@ def ob_symlink_world():
     a successful call leaves the new link in place and logs it; only a non-symlink is refused"""
     def h():
         state = ['absent', 'live-symlink', 'dangling-symlink', 'regular-file'][choose(4, 'pre_existing_link')]
-        target_abs = decide(sym_bool('target_is_absolute')); dry = False
+        target_abs = decide(sym_bool('target_is_absolute')); dry = decide(sym_bool('dry_run'))
         world = {'/D/usr/lib/lnk': state}
         log = []
         calls = []
@@ -302,8 +302,69 @@ def ob_symlink_world():
             MI.os = _os; MI.append_to_log = saved_log
         check(state != 'regular-file', 'a pre-existing regular file is never replaced by a link')
         check(ok is True, 'the link is (re)created whatever link was there before')
-        check(world['/D/usr/lib/lnk'] == 'live-symlink' and '/D/usr/lib/lnk' in log, 'the created link is recorded in the install log (so uninstall removes it)')
+        if dry:
+            check(not calls and world['/D/usr/lib/lnk'] == state, '--dry-run neither removes nor creates anything'); cover('dry-run')
+        else:
+            check(world['/D/usr/lib/lnk'] == 'live-symlink', 'the new link is in place')
+        check('/D/usr/lib/lnk' in log, 'the created link is recorded in the install log (so uninstall removes it)')
         cover(state)
+    return h
+
+
+def ob_copyfile_world():
+    """do_copyfile (+ the DirMaker and set_mode that install_data runs around it) against a small model of the file system, with --dry-run symbolic:
+    a dry run issues no mutating call at all; a real run removes a pre-existing file, creates the directory if needed, copies to exactly the destination
+    and logs it; a destination that is not a file is refused"""
+    def h():
+        dst_state = ['absent', 'file', 'dir'][choose(3, 'destination')]
+        src_state = ['file', 'live-symlink', 'dangling-symlink', 'absent'][choose(4, 'source')]
+        dir_exists = decide(sym_bool('destination_dir_exists')) or dst_state != 'absent'
+        dry = decide(sym_bool('dry_run'))
+        only_changed = False
+        world = {'/D/p/f': dst_state, '/src/f': src_state}
+        calls = []; log = []
+        import os as _os, shutil as _sh
+
+        def kind(p): return world.get(p, 'absent')
+        def exists(p):
+            if p == '/D/p': return dir_exists
+            return kind(p) in ('file', 'dir', 'live-symlink')
+        def mut(name):
+            def f(*a, **k): calls.append((name,) + tuple(a))
+            return f
+        fos = types.SimpleNamespace(path=types.SimpleNamespace(exists=exists, isfile=lambda p: kind(p) in ('file', 'live-symlink'), islink=lambda p: kind(p) in ('live-symlink', 'dangling-symlink'),
+                                                                split=_os.path.split, dirname=_os.path.dirname, normpath=_os.path.normpath, join=_os.path.join, lexists=lambda p: kind(p) != 'absent'),
+                                    remove=mut('remove'), makedirs=mut('makedirs'), symlink=mut('symlink'), chmod=mut('chmod'), chown=mut('chown'), stat=_os.stat, umask=_os.umask)
+        fsh = types.SimpleNamespace(copy=mut('copy'), copy2=mut('copy2'), copyfile=mut('copyfile'), copystat=mut('copystat'), chown=mut('chown'))
+        saved = (MI.os, MI.shutil, MI.append_to_log, MI.set_chmod, MI.is_executable)
+        MI.os, MI.shutil = fos, fsh
+        MI.append_to_log = lambda lf, line: log.append(line)
+        MI.set_chmod = lambda path, mode, **k: calls.append(('chmod', path, mode))
+        MI.is_executable = lambda path, follow_symlinks=False: False
+        try:
+            ins = mk_installer(dry, None, [])
+            ins.options.only_changed = only_changed
+            dm = MI.DirMaker(None, ins.makedirs)
+            try:
+                ok = ins.do_copyfile('/src/f', '/D/p/f', makedirs=(dm, '/D/p'), follow_symlinks=False)
+                ins.set_mode('/D/p/f', None, 0o022)
+            except ME:
+                check(dst_state == 'dir' or src_state == 'absent', 'refused only when the source is not a file or the destination exists and is not a file')
+                check(not calls, 'a refused copy has not touched anything'); cover('refused'); return
+        finally:
+            MI.os, MI.shutil, MI.append_to_log, MI.set_chmod, MI.is_executable = saved
+        check(dst_state != 'dir' and src_state != 'absent', 'a directory at the destination / a missing source is refused')
+        if dry:
+            check(not calls, '--dry-run issues no mutating call (remove, makedirs, copy, chmod)'); cover('dry-run')
+        else:
+            names = [c[0] for c in calls]
+            check(('remove' in names) == (dst_state == 'file'), 'a pre-existing file is removed first, nothing else is')
+            check(('makedirs' in names) == (dst_state == 'absent'), 'the destination directory is created through the DirMaker when the file is new')
+            cp = [c for c in calls if c[0] in ('copy', 'copy2')]
+            check(len(cp) == 1 and cp[0][1] == '/src/f' and cp[0][2] in ('/D/p/f', '/D/p'), 'exactly one copy, to the destination')
+            check(all(c[1] in ('/D/p/f', '/D/p') or c[0] in ('copy', 'copy2') for c in calls), 'nothing but the destination (and its directory) is touched')
+            cover('installed')
+        check(ok is True and '/D/p/f' in log, 'the installed file is recorded in the install log (dry run included: it lists what would be installed)')
     return h
 
 
@@ -329,6 +390,8 @@ def obligations(tier):
                           labels=('declared', 'umask', 'preserve', 'owner', 'perms-rejected'), max_paths=5000000))
     out.append(Obligation('selection', ob_selection(), dict(tags='none | runtime | runtime,devel', skip_subprojects='none | sub | *', entry='4 tags x 3 subprojects', dry_run='symbolic'),
                           labels=('admitted', 'skipped')))
+    out.append(Obligation('copyfile-world', ob_copyfile_world(), dict(destination='absent | file | directory', source='file | live symlink | dangling symlink | absent', dry_run='symbolic', destination_dir='exists or not'),
+                          labels=('installed', 'dry-run', 'refused')))
     out.append(Obligation('symlink-over-existing', ob_symlink_world(), dict(pre_existing='absent | live symlink | dangling symlink | regular file', model='exists follows links, lexists does not, symlink() fails on an existing name'),
                           labels=('absent', 'live-symlink', 'dangling-symlink', 'refused')))
     for k in ('data', 'headers', 'man', 'emptydir', 'symlinks'):
